@@ -23,7 +23,7 @@ SYMS = [(f, a, s) for f in "FCLU" for a in (0, 1) for s in (1, 2)]  # 16 symbols
 APIDS = (0x0A1, 0x2B2)
 
 
-def build_history(hist, base, k, vary=False):
+def build_history(hist, base, k, vary=False, skip=0):
     """-> (stream bytes, [packet bytes], [(flag, apid_index, count, tag)]).  With vary=True the header bits that do not take part in
     reassembly (version, type, secondary-header flag) differ from packet to packet."""
     counts = {0: (base - 1) % 16384, 1: (base + 5 - 1) % 16384}
@@ -40,6 +40,9 @@ def build_history(hist, base, k, vary=False):
         p = framing.mk_packet(data, apid=APIDS[a], seqflags=FLAGS[f], seqcount=counts[a], **hb)
         pkts.append(p)
         meta.append((f, a, counts[a], tag))
+    if skip:
+        # raw-record framing: every packet is preceded by `skip` foreign bytes, stripped by the framer (skip_header_bytes)
+        return b"".join(bytes([0xC0 + ((i + j) % 16) for j in range(skip)]) + p for i, p in enumerate(pkts)), pkts, meta
     return b"".join(pkts), pkts, meta
 
 
@@ -67,10 +70,11 @@ def model(pkts, meta, k, states=None):
     return out
 
 
-def run_impl(defn, stream, k):
+def run_impl(defn, stream, k, skip=0):
     with observed_warnings() as w:
         try:
-            out = list(defn.packet_generator(stream, combine_segmented_packets=True, secondary_header_bytes=k))
+            kw = {"skip_header_bytes": skip} if skip else {}
+            out = list(defn.packet_generator(stream, combine_segmented_packets=True, secondary_header_bytes=k, **kw))
         except Exception as e:  # noqa: BLE001
             return ("raised", exc_names(e)[0], str(e)[:100]), len(w)
     res = []
@@ -85,10 +89,10 @@ def tags_of(raw: bytes, k):
     return [raw[i] for i in range(6 + k, len(raw) - 1, 2) if raw[i] ^ raw[i + 1] == 0xFF]
 
 
-def check_history(t: Tally, defn, hist, base, k, states, vary=False):
-    stream, pkts, meta = build_history(hist, base, k, vary)
+def check_history(t: Tally, defn, hist, base, k, states, vary=False, skip=0):
+    stream, pkts, meta = build_history(hist, base, k, vary, skip)
     want = model(pkts, meta, k, states)
-    got, nwarn = run_impl(defn, stream, k)
+    got, nwarn = run_impl(defn, stream, k, skip)
     t.evals += 1
     t.transitions += len(hist)
     t.traces += 1
@@ -113,7 +117,7 @@ def check_history(t: Tally, defn, hist, base, k, states, vary=False):
         after_last = any(meta[i][0] == "L" and any(m[1] == meta[i][1] and m[0] in "CL" for m in meta[i + 1:]) for i in range(len(meta)))
         t.violation({"kind": "reassembly", "observed": okind, "stale_group_reuse": bool(after_last and okind == "mismatch"),
                      "secondary_header_bytes": k},
-                    {"history": [list(SYMS[s]) for s in hist], "hist_idx": list(hist), "base": base, "k": k, "vary_header_bits": vary},
+                    {"history": [list(SYMS[s]) for s in hist], "hist_idx": list(hist), "base": base, "k": k, "vary_header_bits": vary, "skip_header_bytes": skip},
                     expected=[w.hex() for w in want],
                     observed=[g.hex() for g in got] if not isinstance(got, tuple) else list(got), note=why)
 
@@ -133,6 +137,7 @@ def _task(task):
                             check_history(t, defn, hist, base, k, states)
                     if n <= task.get("vary_upto", 4):
                         check_history(t, defn, hist, task["bases"][-1], 0, states, vary=True)
+                        check_history(t, defn, hist, task["bases"][0], (first + n) % 3, states, skip=3 + (first % 2))
                     t.nontrivial += any(SYMS[s][0] in "FCL" for s in hist)
     except BaseException as e:  # noqa: BLE001
         t.violation({"kind": "sweep-aborted", "exc": type(e).__name__}, {"length": n, "firsts": task["firsts"]}, observed=repr(e)[:200])
@@ -169,7 +174,7 @@ def run(ctx):
         "exhaustive": True,
         "bound": (f"EVERY history of length <= {max_len} over 16 symbols ({{F,C,L,U}} x 2 APIDs x sequence step {{+1,+2}})"
                   + ("" if ctx.quick else " (length 5, 6 halved by APID symmetry; length 6 with base 16382 and no secondary header)")
-                  + "; histories of length <= 4 also with version/type/secondary-header-flag bits that differ from packet to packet; base sequence counts {0, 16382} (wrap-around inside the history); secondary_header_bytes {0,1,3} on the shorter histories; "
+                  + "; histories of length <= 4 also with version/type/secondary-header-flag bits that differ from packet to packet, and as raw records (3 or 4 foreign bytes before every packet, skip_header_bytes) with secondary headers of 0..2 bytes; base sequence counts {0, 16382} (wrap-around inside the history); secondary_header_bytes {0,1,3} on the shorter histories; "
                   "every history runs in a fresh generator but all of them on ONE definition object per worker, so group state that outlives a generator "
                   "(or is shared between generators) makes later histories disagree with the model"),
         "rule": ("one evaluation = one history replayed on a fresh generator and on the model; distinct non-trivial = distinct histories containing at "
@@ -182,7 +187,7 @@ def run(ctx):
 
 def replay(case):
     t = Tally()
-    check_history(t, header_only_definition(), tuple(case["hist_idx"]), case["base"], case["k"], None, vary=case.get("vary_header_bits", False))
+    check_history(t, header_only_definition(), tuple(case["hist_idx"]), case["base"], case["k"], None, vary=case.get("vary_header_bits", False), skip=case.get("skip_header_bytes", 0))
     return t.violations[0] if t.violations else None
 
 
